@@ -414,7 +414,13 @@ def check_king_safe_on(ctx, f, L):
         elif p.ret == FALSE:
             rejecting.append(conds)
         else:
-            ctx.fail("king_safe_on:ret", "king_safe_on returns a non-constant on some path: %s" % sym.show(p.ret)[:100], loc(body))
+            # `a && b && last` returns its last conjunct as a value: the same as branching on it
+            r = L.lift(p.ret)
+            if r[0] in ("isempty", "has", "bin", "un"):
+                true_paths.append(conds + [setalg.cond_atom((r, 1))])
+                rejecting.append(conds + [setalg.cond_atom((r, 0))])
+            else:
+                ctx.fail("king_safe_on:ret", "king_safe_on returns something that is not a test of attacker sets: %s" % sym.show(r)[:100], loc(body))
     # safe  <=>  all spec sets empty
     want = [[(("isempty", c), True) for c in spec.values()]]
     ok, wit = setalg.guards_equivalent(true_paths, want)
@@ -711,7 +717,12 @@ def check_roster(ctx, f, L):
     for in_check in (False, True):
         cg = {"IN_CHECK": TRUE if in_check else FALSE}
         paths = sym.SymExec(f, body, cgen=cg, inline=lambda n: False).run()
-        full = [p for p in paths if p.ret == FALSE]
+        def gen_calls(p_):
+            return [e for e in p_.events if e.kind == "call" and e.depth == 0 and e.name.rsplit("::", 1)[-1].startswith("add_")
+                    and e.name.endswith("_legals")]
+        # the path on which no generator aborted: it answers false, or hands back the verdict of the last generator
+        full = [p for p in paths if p.ret == FALSE or (gen_calls(p) and p.ret == gen_calls(p)[-1].ret and
+                                                       all(any(c[0] == e.ret and c[1] == 0 for c in p.conds) for e in gen_calls(p)[:-1]))]
         if not ctx.check(len(full) == 1, "roster:complete-path", "add_all_legals does not have exactly one path on which nothing aborted", loc(body)):
             continue
         p = full[0]
